@@ -26,6 +26,7 @@ THEOREMS = [
     "C01_source_check_dims",
     "C01_source_variadic",
     "C01_source_variadic_first",
+    "C01_source_stages",
 ]
 RULE = (
     "histories of array checks (dim string, shape, dtype/type flags) inside one jaxtyped context or "
